@@ -48,14 +48,17 @@ fn accept_case(bounds: Vec<f64>) {
 #[cfg_attr(kani, kani::proof, kani::unwind(4), kani::stub(std::fmt::format, fmt_stub))]
 pub fn c08_accept_len1() {
     accept_case(vec![any_f64()]);
+    vcover!(true, "end of harness reached");
 }
 #[cfg_attr(kani, kani::proof, kani::unwind(5), kani::stub(std::fmt::format, fmt_stub))]
 pub fn c08_accept_len2() {
     accept_case(vec![any_f64(), any_f64()]);
+    vcover!(true, "end of harness reached");
 }
 #[cfg_attr(kani, kani::proof, kani::unwind(6), kani::stub(std::fmt::format, fmt_stub))]
 pub fn c08_accept_len3() {
     accept_case(vec![any_f64(), any_f64(), any_f64()]);
+    vcover!(true, "end of harness reached");
 }
 #[cfg_attr(kani, kani::proof, kani::unwind(14), kani::stub(std::fmt::format, fmt_stub))]
 pub fn c08_accept_empty_selects_default() {
@@ -67,6 +70,7 @@ pub fn c08_accept_empty_selects_default() {
         i += 1;
     }
     std::mem::forget(got);
+    vcover!(true, "end of harness reached");
 }
 
 /// Public constructor agrees with the rule (wiring of the unit into `Histogram::with_opts`).
@@ -80,6 +84,7 @@ pub fn c08_accept_public_len2() {
     let r = Histogram::with_opts(HistogramOpts::new("a", "h").buckets(b));
     assert!(r.is_ok() == want, "C08 acceptance through Histogram::with_opts");
     std::mem::forget(r);
+    vcover!(true, "end of harness reached");
 }
 
 fn cum(v: &[f64], b: f64) -> u64 {
@@ -129,6 +134,7 @@ pub fn c08_count_2bounds_2obs() {
     vcover!(v0 > b1 && v1 <= b0, "c08.count: above all bounds / in first bucket");
     check_snapshot(&h, &[b0, b1], &[v0, v1], (0.0 + v0) + v1);
     std::mem::forget(h);
+    vcover!(true, "end of harness reached");
 }
 
 
@@ -148,6 +154,7 @@ pub fn c08_count_2bounds_1obs() {
     vcover!(v0 > b1, "c08.count21: above all bounds");
     check_snapshot(&h, &[b0, b1], &[v0], 0.0 + v0);
     std::mem::forget(h);
+    vcover!(true, "end of harness reached");
 }
 /// One symbolic bound, two arbitrary observations (sum in observation order).
 #[cfg_attr(kani, kani::proof, kani::unwind(5),
@@ -165,6 +172,7 @@ pub fn c08_count_1bound_2obs() {
     vcover!(v0 <= b0 && v1 > b0, "c08.count12: one in, one out");
     check_snapshot(&h, &[b0], &[v0, v1], (0.0 + v0) + v1);
     std::mem::forget(h);
+    vcover!(true, "end of harness reached");
 }
 /// Concrete bounds [1.0, 2.0], two arbitrary observations.
 #[cfg_attr(kani, kani::proof, kani::unwind(5),
@@ -178,6 +186,7 @@ pub fn c08_count_concrete_2obs() {
     h.observe(v1);
     check_snapshot(&h, &[1.0, 2.0], &[v0, v1], (0.0 + v0) + v1);
     std::mem::forget(h);
+    vcover!(true, "end of harness reached");
 }
 
 
@@ -217,6 +226,7 @@ pub fn c08_core_2bounds_1obs() {
     vcover!(v0 > b1, "c08.core21: above all bounds");
     check_snapshot(&h, &[b0, b1], &[v0], 0.0 + v0);
     std::mem::forget(h);
+    vcover!(true, "end of harness reached");
 }
 #[cfg_attr(kani, kani::proof, kani::unwind(5))]
 pub fn c08_core_2bounds_2obs() {
@@ -229,6 +239,7 @@ pub fn c08_core_2bounds_2obs() {
     vcover!(v0 > b1 && v1 <= b0, "c08.core22: above all bounds / in first bucket");
     check_snapshot(&h, &[b0, b1], &[v0, v1], (0.0 + v0) + v1);
     std::mem::forget(h);
+    vcover!(true, "end of harness reached");
 }
 
 /// Same through `LocalHistogram::observe` + `flush`.
@@ -249,6 +260,7 @@ pub fn c08_count_local_2bounds_2obs() {
     check_snapshot(&h, &[b0, b1], &[v0, v1], 0.0 + ((0.0 + v0) + v1));
     std::mem::forget(l);
     std::mem::forget(h);
+    vcover!(true, "end of harness reached");
 }
 
 /// `linear_buckets`: Err exactly for count == 0 or width <= 0 (documented), else start + width*i.
@@ -268,6 +280,7 @@ pub fn c08_linear_buckets() {
         }
     }
     std::mem::forget(r);
+    vcover!(true, "end of harness reached");
 }
 
 /// `exponential_buckets`: Err exactly for count == 0, start <= 0, factor <= 1; start and factor
@@ -285,6 +298,7 @@ pub fn c08_exponential_buckets_errors() {
         assert!(v.len() == 1 && v[0].to_bits() == start.to_bits(), "C08 exponential_buckets first bound is start");
     }
     std::mem::forget(r);
+    vcover!(true, "end of harness reached");
 }
 
 /// `exponential_buckets` values: start unrestricted, factor from the pool {2, 10, 1.5}, count <= 3:
@@ -308,6 +322,7 @@ pub fn c08_exponential_buckets_values() {
         }
     }
     std::mem::forget(r);
+    vcover!(true, "end of harness reached");
 }
 
 pub fn dispatch(name: &str) -> Option<fn()> {
